@@ -434,6 +434,45 @@ def run(run):
     # oracle on the real code
     for o in objs:
         oracle(run, o, obj_case(o))
+    # the same oracle with pywbem's second escaping mode (module switch _cim_xml._CDATA_ESCAPING): CDATA sections,
+    # ']]>' splitting, nesting through embedded objects.  Oracle and element-syntax parser only (the encoder model
+    # mirrors the default mode).
+    from pywbem import _cim_xml
+    saved = _cim_xml._CDATA_ESCAPING
+    cd_reqs, cd_meta = [], []
+    try:
+        _cim_xml._CDATA_ESCAPING = True
+        gcd = cimgen.Gen(run.rng, allow_cr=True)
+        extra = []
+        for i in range(len(objs) // 4):
+            extra.append(gcd.any())
+        import pywbem
+        for s_ in (']]>', 'a]]>b]]>c', ']]]>', ']]>]]>', '<![CDATA[x]]>', 'a<b&c>d]]>', '&', '<', ''):
+            extra.append(pywbem.CIMProperty('P', s_, type='string'))
+            extra.append(pywbem.CIMProperty('E', pywbem.CIMInstance('C', properties={
+                'q': pywbem.CIMInstance('D', properties={'s': s_})}), type='string', embedded_object='instance'))
+        for o in extra:
+            case = dict(obj_case(o), cdata_mode=True)
+            run.count('cdata_mode:' + type(o).__name__)
+            oracle(run, o, case)
+            try:
+                xml = o.tocimxml().toxml()
+                from pywbem._tupletree import xml_to_tupletree_sax
+                tt = xml_to_tupletree_sax(xml, 'C01')
+                cd_reqs.append({'op': 'par', 's': cimproto.cps(xml)})
+                cd_meta.append((o, sort_attrs(cimproto.tt_to_json(tt))))
+            except Exception:  # noqa  (the oracle above has reported it)
+                pass
+    finally:
+        _cim_xml._CDATA_ESCAPING = saved
+    for (o, real), ans in zip(cd_meta, common.run_driver(PROP, cd_reqs) if cd_reqs else []):
+        run.evaluations += 1
+        t = ans.get('tree')
+        t = None if t is None else sort_attrs(t)
+        if t != real:
+            d = diff(real, t) if t is not None else ('', True, False)
+            run.disagree(dict(obj_case(o), cdata_mode=True), {'diff_at': d[0], 'model': str(d[2])[:200]},
+                         {'real': str(d[1])[:200]}, 'element syntax (CDATA mode): XmlParse.par vs xml_to_tupletree_sax')
 
 
 def search(run):
@@ -464,7 +503,13 @@ def replay(payload):
         return False, 'cannot rebuild the object from its repr (%r); recorded observation: %s' % (
             e, json.dumps(payload.get('observed'))[:1500])
     r = common.Run(PROP, 'quick', 0)
-    oracle(r, o, payload['case'])
+    from pywbem import _cim_xml
+    saved = _cim_xml._CDATA_ESCAPING
+    try:
+        _cim_xml._CDATA_ESCAPING = bool(payload['case'].get('cdata_mode'))
+        oracle(r, o, payload['case'])
+    finally:
+        _cim_xml._CDATA_ESCAPING = saved
     if r.violations:
         return False, 'property C01 FAILS for this object: ' + json.dumps(r.violations[0]['sig']) + '\n' + \
             json.dumps(r.violations[0]['observed'])[:1500]
